@@ -99,7 +99,7 @@ def gen_content(rng, shape, kind, dtype):
             stamp(img, c, amp, rng.choice([0.8, 1.0, 1.5, 2.2]), rad,
                   flat=rng.choice([1.0, 2.0, 4.0]) if kind == 'plateau' else 0.0)
     if kind == 'pair':     # two close blobs of similar height: dedupe decides
-        c = tuple(rng.randint(3, s - 4) for s in shape)
+        c = tuple(rng.randint(min(3, s // 2), max(min(3, s // 2), s - 4)) for s in shape)
         d = tuple(rng.choice([-3, -2, 2, 3]) for _ in shape)
         c2 = tuple(min(s - 2, max(1, a + b)) for a, b, s in zip(c, d, shape))
         amp = top * rng.choice([0.9, 0.5])
@@ -494,7 +494,7 @@ def eval_transposition(chk, c):
     if sorted(pa) != sorted(pb):
         onlyA = sorted(set(pa) - set(pb))
         onlyB = sorted(set(pb) - set(pa))
-        if onlyA and onlyB and len(onlyA) == len(onlyB) and explain_tie(c, p, onlyA, onlyB, img):
+        if explain_tie(c, p, onlyA, onlyB, img):
             res['sig'] = SIG_F15
             res['what'] = ('transposed image: where_close keeps the other member of a pair of candidates with equal mass and equal '
                            'coordinate sum (rows only in original %s, only in transposed %s)' % (onlyA[:3], onlyB[:3]))
@@ -605,7 +605,8 @@ def expected_batch(c, order):
         t = c['tagging']
         tagged = t in ('frame_no', 'lossy') or (t == 'partial' and i % 2 == 0)
         no = c['nos'][i] if tagged else k
-        cols = list(df.columns)
+        if len(df) and cols is None:
+            cols = list(df.columns)
         for r in df.values.tolist():
             rows.append(tuple(r) + (no,))
     return rows, cols
